@@ -11,9 +11,12 @@ every info set (any number of identities, features, fields, values; any well-for
 Vocabulary: `l ~ l'` permutation; `FormPermuted f f'` fields reordered and the values inside each field reordered;
 `DistinctKeys` the `var`s of the form are pairwise different (XEP-0004 §3.2); `NoChar c i` character `c` occurs in no
 component; `NoSlash i` no `/` in a category, type or language tag; `canon i` the content as the hash sees it (sorted
-identities, sorted distinct features, FORM_TYPE value and per key the appended values); `OrdersAgree i` UTF-16 and
-octet collation agree on all components; `Plain` a non-empty string or non-empty list value; `XepForm` unique `var`s and a
-single-valued FORM_TYPE; `Bmp s` all characters below U+10000.
+identities, sorted distinct features, FORM_TYPE value and per key the appended values); `Plain` a non-empty string or
+non-empty list value; `XepForm` unique `var`s and a single-valued FORM_TYPE.
+
+State of the tree: repo commits 0beac74 (sorting by UTF-8 octets) and eee8133 (`capabilities()` removes repeated
+features) are in; the model follows them, and the former `C20_defect_utf16_order` / `C20_defect_reply_repeats_feature`
+are gone (their witnesses stay in the harness corpus and as examples below).
 -/
 namespace Qx.C20
 open List
@@ -28,8 +31,8 @@ theorem ver_perm_invariant {β : Type} (H : Str → β) (a b : Info)
     (hkeys : DistinctKeys a.form) (hform : FormPermuted a.form b.form) :
     ver H a = ver H b := by
   simp only [ver, verStringCode, sortedIdentitiesCode, sortedFeaturesCode]
-  rw [isort_eq_of_perm (identityLessThan_strictTotal lt16_strictTotal) hids,
-    isort_eq_of_perm lt16_strictTotal hfeats, formStrCode_eq_of_permuted hkeys hform]
+  rw [isort_eq_of_perm (identityLessThan_strictTotal lt8_strictTotal) hids,
+    isort_eq_of_perm lt8_strictTotal hfeats, formStrCode_eq_of_permuted hkeys hform]
 
 /-- **Only the set of features counts**: two feature lists with the same members (any order, any
 multiplicities) give the same verification string. -/
@@ -37,7 +40,7 @@ theorem ver_feature_set_invariant {β : Type} (H : Str → β) (a b : Info)
     (hids : a.ids = b.ids) (hform : a.form = b.form) (hm : ∀ f, f ∈ a.feats ↔ f ∈ b.feats) :
     ver H a = ver H b := by
   simp only [ver, verStringCode, sortedIdentitiesCode, sortedFeaturesCode]
-  rw [hids, hform, canonFeats_eq_of_mem_iff lt16_strictTotal hm]
+  rw [hids, hform, canonFeats_eq_of_mem_iff lt8_strictTotal hm]
 
 /-- **Repeating a feature changes nothing.** -/
 theorem ver_dup_feature_invariant {β : Type} (H : Str → β) (i : Info) (f : Str) (hf : f ∈ i.feats) :
@@ -152,22 +155,22 @@ theorem xep_string_ambiguous_across_sections :
 
 /-! ## the computed string is the XEP-0115 §5.1 string -/
 
-/-- **The C++ string is the XEP string** whenever the two collations agree on the components, the form is in the
-XEP's domain and every field value is a non-empty string or non-empty list. -/
-theorem code_eq_spec_of_orders_agree (i : Info) (h : OrdersAgree i) (hx : XepForm i.form) (hp : PlainForm i.form) :
+/-- **The C++ string is the XEP string** for every info set whose form is in the XEP's domain and whose field values
+are non-empty strings or non-empty lists — any characters, any number of identities, features, fields, values.
+(The two excluded value kinds are the recorded defects below.) -/
+theorem code_eq_spec (i : Info) (hx : XepForm i.form) (hp : PlainForm i.form) :
     verStringCode i = verStringSpec i := by
   simp only [verStringCode, verStringSpec, sortedIdentitiesCode, sortedFeaturesCode]
-  rw [sortedIds_agree h, sortedFeats_agree h, formStr_agree h hx hp]
+  rw [formStr_agree hx hp]
 
-/-- **i;octet on UTF-8 is code point order**, and `QString::operator<` is code point order on BMP-only strings; so the
-collations can only differ when a character ≥ U+10000 is involved. -/
-theorem orders_agree_on_bmp (s t : Str) (hs : Bmp s) (ht : Bmp t) : lt16 s t = lt8 s t :=
-  lt16_eq_lt8_of_bmp s t hs ht
+/-- without a form nothing is assumed at all -/
+theorem code_eq_spec_without_form (i : Info) (h : i.form = none) : verStringCode i = verStringSpec i :=
+  code_eq_spec i (by rw [h]; trivial) (by rw [h]; trivial)
 
-/-- **…in particular for every info set without characters above U+FFFF.** -/
-theorem code_eq_spec_of_bmp (i : Info) (h : ∀ s ∈ i.components, Bmp s) (hx : XepForm i.form) (hp : PlainForm i.form) :
-    verStringCode i = verStringSpec i :=
-  code_eq_spec_of_orders_agree i (ordersAgree_of_bmp h) hx hp
+/-- **The collation used is the XEP's, and it is code point order**: i;octet on the UTF-8 encodings compares the
+sequences of code points (so e.g. U+FF5E sorts before U+1F600, unlike in UTF-16). -/
+theorem octet_order_is_code_point_order (s t : Str) : lt8 s t = lexLt (cps s) (cps t) :=
+  lt8_eq_cp s t
 
 /-! ### where today's code is *not* the XEP string (each replayed on the real library by `harness/cxx/caps.cpp`) -/
 
@@ -184,19 +187,10 @@ def witnessBool : Info :=
 def witnessValueless : Info :=
   { ids := [], feats := [], form := some [⟨formTypeKey, .text "urn:t".toList⟩, ⟨['b'], .text []⟩] }
 
-/-- the C++ puts U+1F600 (UTF-16 `D83D DE00`) before U+FF5E, the octet collation (`F0 9F 98 80` after `EF BD 9E`) the
-other way round -/
-theorem C20_defect_utf16_order_witness :
-    sortedIdentitiesCode witnessUtf16 = [idSmile, idTilde] ∧
-    isort (identityLessThan lt8) witnessUtf16.ids = [idTilde, idSmile] ∧
-    verStringCode witnessUtf16 ≠ verStringSpec witnessUtf16 := by decide
-
-/-- **Defect (collation).** The unrestricted statement "the computed string is the XEP string on the XEP's domain for
-plain values" is false: `QString::operator<` is not the octet collation (key `C20:utf16-vs-octet-order`). -/
-theorem C20_defect_utf16_order :
-    ¬ ∀ i : Info, XepForm i.form → PlainForm i.form → verStringCode i = verStringSpec i := by
-  intro h
-  exact C20_defect_utf16_order_witness.2.2 (h witnessUtf16 trivial trivial)
+/-- the former collation witness (fixed by 0beac74): U+FF5E (`EF BD 9E`) now comes before U+1F600 (`F0 9F 98 80`)
+and the string is the XEP string -/
+example : sortedIdentitiesCode witnessUtf16 = [idTilde, idSmile] ∧
+    verStringCode witnessUtf16 = verStringSpec witnessUtf16 ∧ lt16 ['😀'] ['～'] = true ∧ lt8 ['～'] ['😀'] = true := by decide
 
 theorem witnessBool_xepForm : XepForm witnessBool.form := by
   refine ⟨by decide, ?_⟩
@@ -215,24 +209,24 @@ theorem witnessValueless_xepForm : XepForm witnessValueless.form := by
   · exact absurd hk (by decide)
 
 /-- **Defect (boolean fields).** A boolean field is hashed as `true`/`false` (`QVariant::toString`) but written to
-the wire as `1`/`0`: even for ASCII-only info sets in the XEP's domain the computed string is not the XEP string of
-what is sent (key `C20:boolean-field-hashed-as-true-false`). -/
+the wire as `1`/`0`: on the XEP's domain the computed string is not always the XEP string of what is sent, i.e.
+`code_eq_spec` is false without `PlainForm` (key `C20:boolean-field-hashed-as-true-false`). -/
 theorem C20_defect_boolean_field :
-    ¬ ∀ i : Info, (∀ s ∈ i.components, Bmp s) → XepForm i.form → verStringCode i = verStringSpec i := by
+    ¬ ∀ i : Info, XepForm i.form → verStringCode i = verStringSpec i := by
   intro h
-  have x1 := h witnessBool (by decide) witnessBool_xepForm
+  have x1 := h witnessBool witnessBool_xepForm
   revert x1
   decide
 
 /-- **Defect (value-less fields).** A field without a value is hashed as `var<<` where the XEP says `var<`
 (key `C20:valueless-field-extra-separator`); consequently adding an empty value to it does not change the hash. -/
 theorem C20_defect_valueless_field :
-    (¬ ∀ i : Info, (∀ s ∈ i.components, Bmp s) → XepForm i.form → verStringCode i = verStringSpec i) ∧
+    (¬ ∀ i : Info, XepForm i.form → verStringCode i = verStringSpec i) ∧
     verStringCode { witnessValueless with form := some [⟨formTypeKey, .text "urn:t".toList⟩, ⟨['b'], .list []⟩] } =
     verStringCode { witnessValueless with form := some [⟨formTypeKey, .text "urn:t".toList⟩, ⟨['b'], .list [[]]⟩] } := by
   refine ⟨?_, by decide⟩
   intro h
-  have x1 := h witnessValueless (by decide) witnessValueless_xepForm
+  have x1 := h witnessValueless witnessValueless_xepForm
   revert x1
   decide
 
@@ -245,29 +239,23 @@ theorem advertised_eq_answered {β : Type} (H : Str → β) (c : ClientCfg) (v :
     (answeredInfo c []).map (ver H) = some (advertisedVer H c) := by
   simp [answeredInfo, advertisedVer, isPrefixOf_self_append]
 
-/-- **…and it is the XEP-0115 hash of that answer** (what a verifying peer recomputes) when the client's info set is
-regular: collations agree on its components, info form in the XEP's domain with plain values. -/
+/-- **…and it is the XEP-0115 hash of that answer** (what a verifying peer recomputes) whenever the client's info form
+is in the XEP's domain with plain values (always when no info form is set). -/
 theorem advertised_eq_xep_hash_of_answer {β : Type} (H : Str → β) (c : ClientCfg) (v : Str)
-    (h : OrdersAgree (capabilities c)) (hx : XepForm c.infoForm) (hp : PlainForm c.infoForm) :
+    (hx : XepForm c.infoForm) (hp : PlainForm c.infoForm) :
     (answeredInfo c (c.node ++ '#' :: v)).map (fun i => H (verStringSpec i)) = some (advertisedVer H c) := by
-  have e := code_eq_spec_of_orders_agree (capabilities c) h hx hp
+  have e := code_eq_spec (capabilities c) hx hp
   simp [answeredInfo, advertisedVer, isPrefixOf_self_append, ver, e]
 
-/-- the reply lists every feature once when the contributions are repetition-free and pairwise disjoint … -/
-theorem reply_features_nodup (c : ClientCfg)
-    (h : (c.baseFeatures ++ c.extFeatures.flatten).Nodup) : (capabilities c).feats.Nodup := h
+/-- **The answer lists every feature once** (XEP-0115 §5.4 item 4 makes a verifying peer reject a repeated feature),
+whatever the client and its extensions contribute — since eee8133. -/
+theorem reply_features_nodup (c : ClientCfg) : (capabilities c).feats.Nodup :=
+  removeDuplicatesGo_nodup _ []
 
-/-- **Defect (repeated feature in the reply).** … but `capabilities()` does not remove repetitions (only the hash
-does): a feature contributed twice (e.g. `jabber:x:conference` by the client itself and by `QXmppMucManager`) is sent
-twice, which XEP-0115 §5.4 item 4 tells a verifying peer to treat as ill-formed (key `C20:reply-repeats-feature`). -/
-theorem C20_defect_reply_repeats_feature :
-    ¬ ∀ c : ClientCfg, c.baseFeatures.Nodup → (∀ l ∈ c.extFeatures, l.Nodup) → (capabilities c).feats.Nodup := by
-  intro h
-  have x1 := h { category := [], type := [], name := [], baseFeatures := ["jabber:x:conference".toList],
-                 extFeatures := [["jabber:x:conference".toList]], extIdentities := [], infoForm := none, node := [] }
-    (by decide) (by decide)
-  revert x1
-  decide
+/-- …and no contributed feature is lost -/
+theorem reply_features_complete (c : ClientCfg) (f : Str) :
+    f ∈ (capabilities c).feats ↔ f ∈ c.baseFeatures ∨ ∃ l ∈ c.extFeatures, f ∈ l := by
+  simp [capabilities, mem_removeDuplicates]
 
 /-! ### Non-vacuity: concrete, non-trivial info sets meet the hypotheses above -/
 
@@ -300,8 +288,8 @@ example : FormPermuted infoA.form infoB.form :=
   ⟨[formA[2], formA[1], formA[0]], by decide,
    .cons ⟨rfl, rfl⟩ (.cons ⟨rfl, Perm.swap _ _ _⟩ (.cons ⟨rfl, rfl⟩ .nil))⟩
 example : verStringCode infoA = verStringCode infoB := by decide +kernel
-example : NoChar '<' infoA ∧ NoSlash infoA ∧ XepForm infoA.form ∧ PlainForm infoA.form ∧ (∀ s ∈ infoA.components, Bmp s) := by
-  refine ⟨by decide, by decide, ⟨by decide, ?_⟩, by decide, by decide⟩
+example : NoChar '<' infoA ∧ NoSlash infoA ∧ XepForm infoA.form ∧ PlainForm infoA.form := by
+  refine ⟨by decide, by decide, ⟨by decide, ?_⟩, by decide⟩
   intro f hf hk
   simp only [formA, mem_cons, not_mem_nil, or_false] at hf
   rcases hf with rfl | rfl | rfl
@@ -323,7 +311,10 @@ def cfgA : ClientCfg :=
     extFeatures := [["http://jabber.org/protocol/disco#info".toList], ["jabber:iq:version".toList]],
     extIdentities := [[], [⟨"automation".toList, "rpc".toList, [], []⟩]],
     infoForm := some formA, node := "https://example.org/client".toList }
-example : (∀ s ∈ (capabilities cfgA).components, Bmp s) ∧ PlainForm cfgA.infoForm ∧ DistinctKeys cfgA.infoForm := by
-  refine ⟨by decide +kernel, by decide, by decide⟩
+example : PlainForm cfgA.infoForm ∧ DistinctKeys cfgA.infoForm := ⟨by decide, by decide⟩
+/-- the former repeated-feature witness (fixed by eee8133): `jabber:x:conference` contributed by the client and by an
+extension is answered once -/
+example : (capabilities { cfgA with extFeatures := [["jabber:x:conference".toList]] }).feats =
+    ["jabber:x:data".toList, "jabber:x:conference".toList] := by decide +kernel
 
 end Qx.C20
